@@ -21,7 +21,20 @@ EVAL = Contract(
     ensures=[("evaluated-there", lambda o, n, r: n.last_eval.t == o.x.t)],
     raises={"UserError": dict(when=None, post=[], modifies=("last_eval",))},
     modifies=("last_eval",), trusted=True, extra=dict(variant="records-the-point"),
-    note="assumed: eval(x) calls the merit function at x (two lines of code; its bookkeeping of the best point is not in the claim)")
+    note="call-site view of eval(x): the merit function is called at x; proved on eval's own body as JacobianSolver.eval@calls-the-merit-function-at-x")
+
+
+TSolverE = TRec("JacobianSolver", dict(func=TV, verbose=TV, _penalty_best=TV, _step_best=TV, _step=TV, _xbest=TV))
+EVAL_PROVED = Contract(
+    module=MJ, qualname="JacobianSolver.eval", params=dict(self=TSolverE, x=TV), ghost=dict(last_eval=TV, n_evals=TInt), result=TTuple(TV, TV),
+    ensures=[("the-merit-function-is-called-exactly-once, at x", lambda o, n, r: z3.And(n.last_eval.t == o.x.t, n.n_evals.t == o.n_evals.t + 1))],
+    raises={"UserError": dict(when=None, post=[("no-call-elsewhere", lambda o, n: z3.And(
+        z3.Or(n.n_evals.t == o.n_evals.t, z3.And(n.n_evals.t == o.n_evals.t + 1, n.last_eval.t == o.x.t))))],
+        modifies=("last_eval", "n_evals", "self._penalty_best", "self._step_best", "self._xbest"))},
+    modifies=("last_eval", "n_evals", "self._penalty_best", "self._step_best", "self._xbest"), min_obligations=2,
+    extra=dict(engine=OpaqueEngine, variant="calls-the-merit-function-at-x", frame_ghosts=False, records_calls={"func": ("last_eval", "n_evals")},
+               pure_methods=("copy",)),
+    note="what the bisection-block contract assumes about eval (records-the-point), proved on eval's own body")
 
 
 def _inv(L):
@@ -55,7 +68,7 @@ BISECT = Contract(
                block=dict(first="alpha = -1", last="self.x -= this_xstep")),
     note="block contract: from `alpha = -1` to `self.x -= this_xstep`")
 
-VARIANTS = [BISECT]
+VARIANTS = [BISECT, EVAL_PROVED]
 CONTRACTS = []
 
 
